@@ -20,7 +20,7 @@ import views
 from c03 import Recorder
 
 PID = "C04"
-PROPS = ["Aldy.Props.C04", "Aldy.Props.C04Score", "Aldy.Props.C04Tight", "Aldy.Props.C04Spec"]
+PROPS = ["Aldy.Props.C04", "Aldy.Props.C04Score", "Aldy.Props.C04Tight", "Aldy.Props.C04Spec", "Aldy.Props.C04Decision"]
 TRUSTED_EXTRA = ["GeneView serialiser", "iteration order of the considered-variant set is transmitted from the implementation (tie-breaker coefficients depend on it)"]
 ASSUMPTIONS = ["evidence tables avoid exact float boundaries of the threshold filter"]
 TOL = 1e-6
